@@ -158,3 +158,103 @@ Proof.
   destruct (chip_mem c route) eqn:E2; [discriminate|].
   destruct Hq as [Hq|Hq]; [subst; apply rt_chip_mem_false; exact E2 | apply IH; [reflexivity | exact Hq]].
 Qed.
+
+(* ------------------------------------------------------------------------------------------------
+   attaching a vertex (a leaf) *)
+Definition leaves_kid (c : chip) (k : option Z * rtree) : list (chip * option Z * Z) :=
+  match snd k with
+  | RLeaf v => [(c, fst k, v)]
+  | RNode _ _ => tree_leaves (snd k)
+  end.
+
+Lemma in_leaves_node : forall e c kids,
+    In e (tree_leaves (RNode c kids)) <-> exists k, In k kids /\ In e (leaves_kid c k).
+Proof. intros e c kids. simpl. rewrite in_flat_map. reflexivity. Qed.
+
+Lemma occ_leaf : forall x v, occ x (RLeaf v) = 0%nat.
+Proof. reflexivity. Qed.
+
+Lemma occ_attach_leaf : forall p r v x t, occ x (attach p (r, RLeaf v) t) = occ x t.
+Proof. intros. rewrite occ_attach. simpl snd. rewrite occ_leaf. lia. Qed.
+
+Lemma hops_attach_leaf : forall p r v t e,
+    In e (tree_hops (attach p (r, RLeaf v) t)) <-> In e (tree_hops t).
+Proof.
+  intros p r v. induction t as [v0|c0 kids IH] using rtree_ind2; intros e.
+  - simpl. tauto.
+  - rewrite attach_node_eq. rewrite !in_hops_node. rewrite Forall_forall in IH.
+    set (f := fun rk : option Z * rtree => (fst rk, attach p (r, RLeaf v) (snd rk))).
+    assert (Hkid : forall k, In k kids -> (In e (hops_kid c0 (f k)) <-> In e (hops_kid c0 k))).
+    { intros [rk sk] Hk. unfold f, hops_kid. cbn [fst snd]. destruct sk as [c1 ks1|v1].
+      - rewrite attach_node_eq. rewrite <- attach_node_eq. simpl.
+        rewrite (IH _ Hk e). cbn [snd]. tauto.
+      - simpl. tauto. }
+    split.
+    + intros [k [Hk He]].
+      assert (Hk' : In k (map f kids) \/ (chip_eqb c0 p = true /\ k = (r, RLeaf v))).
+      { destruct (chip_eqb c0 p); [apply in_app_or in Hk; destruct Hk as [Hk|[Hk|[]]]; [left; exact Hk | right; split; [reflexivity | symmetry; exact Hk]] | left; exact Hk]. }
+      destruct Hk' as [Hk'|[_ Hk']].
+      * apply in_map_iff in Hk'. destruct Hk' as [k1 [Heq Hk1]]. subst k. exists k1. split; [exact Hk1|].
+        apply (Hkid k1 Hk1). exact He.
+      * subst k. unfold hops_kid in He. simpl in He. destruct He.
+    + intros [k [Hk He]]. exists (f k). split.
+      * destruct (chip_eqb c0 p); [apply in_or_app; left|]; apply in_map; exact Hk.
+      * apply (Hkid k Hk). exact He.
+Qed.
+
+Lemma leaves_attach_leaf : forall p r v t e,
+    In e (tree_leaves (attach p (r, RLeaf v) t)) <->
+    In e (tree_leaves t) \/ (In p (chips t) /\ e = (p, r, v)).
+Proof.
+  intros p r v. induction t as [v0|c0 kids IH] using rtree_ind2; intros e.
+  - simpl. tauto.
+  - rewrite attach_node_eq. rewrite !in_leaves_node. rewrite Forall_forall in IH.
+    set (f := fun rk : option Z * rtree => (fst rk, attach p (r, RLeaf v) (snd rk))).
+    assert (Hkid : forall k, In k kids ->
+                             (In e (leaves_kid c0 (f k)) <->
+                              In e (leaves_kid c0 k) \/ (In p (chips (snd k)) /\ e = (p, r, v)))).
+    { intros [rk sk] Hk. unfold f, leaves_kid. cbn [fst snd]. destruct sk as [c1 ks1|v1].
+      - rewrite attach_node_eq. rewrite <- attach_node_eq. apply (IH _ Hk e).
+      - simpl. tauto. }
+    split.
+    + intros [k [Hk He]].
+      assert (Hk' : In k (map f kids) \/ (chip_eqb c0 p = true /\ k = (r, RLeaf v))).
+      { destruct (chip_eqb c0 p); [apply in_app_or in Hk; destruct Hk as [Hk|[Hk|[]]]; [left; exact Hk | right; split; [reflexivity | symmetry; exact Hk]] | left; exact Hk]. }
+      destruct Hk' as [Hk'|[Hc Hk']].
+      * apply in_map_iff in Hk'. destruct Hk' as [k1 [Heq Hk1]]. subst k.
+        apply (Hkid k1 Hk1) in He. destruct He as [He|[Hp He]].
+        -- left. exists k1. split; assumption.
+        -- right. split; [|exact He]. simpl. right. apply in_flat_map. exists k1. split; assumption.
+      * subst k. unfold leaves_kid in He. simpl in He. destruct He as [He|[]].
+        apply rt_chip_eqb_eq in Hc. subst c0. right. split; [simpl; left; reflexivity | symmetry; exact He].
+    + intros [[k [Hk He]]|[Hp He]].
+      * exists (f k). split.
+        -- destruct (chip_eqb c0 p); [apply in_or_app; left|]; apply in_map; exact Hk.
+        -- apply (Hkid k Hk). left. exact He.
+      * simpl in Hp. destruct Hp as [Hp|Hp].
+        -- subst c0. rewrite rt_chip_eqb_refl. exists (r, RLeaf v). split.
+           ++ apply in_or_app. right. left. reflexivity.
+           ++ unfold leaves_kid. simpl. left. symmetry. exact He.
+        -- apply in_flat_map in Hp. destruct Hp as [k1 [Hk1 Hp1]]. exists (f k1). split.
+           ++ destruct (chip_eqb c0 p); [apply in_or_app; left|]; apply in_map; exact Hk1.
+           ++ apply (Hkid k1 Hk1). right. split; assumption.
+Qed.
+
+(* a tree made of nodes only has no leaves; attaching a node does not create one *)
+Lemma leaves_attach_node : forall p d c t e,
+    In e (tree_leaves (attach p (Some d, RNode c []) t)) -> In e (tree_leaves t).
+Proof.
+  intros p d c. induction t as [v0|c0 kids IH] using rtree_ind2; intros e H.
+  - simpl in H. destruct H.
+  - rewrite attach_node_eq in H. apply in_leaves_node in H. destruct H as [k [Hk He]].
+    rewrite Forall_forall in IH. apply in_leaves_node.
+    assert (Hk' : In k (map (fun rk => (fst rk, attach p (Some d, RNode c []) (snd rk))) kids)
+                  \/ k = (Some d, RNode c [])).
+    { destruct (chip_eqb c0 p); [apply in_app_or in Hk; destruct Hk as [Hk|[Hk|[]]]; [left; exact Hk | right; symmetry; exact Hk] | left; exact Hk]. }
+    destruct Hk' as [Hk'|Hk'].
+    + apply in_map_iff in Hk'. destruct Hk' as [[rk sk] [Heq Hk1]]. subst k. exists (rk, sk). split; [exact Hk1|].
+      unfold leaves_kid in *. cbn [fst snd] in *. destruct sk as [c1 ks1|v1].
+      * rewrite attach_node_eq in He. rewrite <- attach_node_eq in He. apply (IH _ Hk1 e). exact He.
+      * exact He.
+    + subst k. unfold leaves_kid in He. simpl in He. destruct He.
+Qed.
